@@ -30,6 +30,8 @@ var nondetDeny = []string{
 	"math/rand.", "math/rand/v2.", "crypto/rand.", "os.Getenv", "os.Environ", "os.Hostname", "os.Getpid", "os.LookupEnv",
 	"runtime.NumGoroutine", "runtime.NumCPU", "runtime.GOMAXPROCS", "runtime.Stack", "runtime.Caller", "runtime.ReadMemStats",
 	"(*sync.Map).Range",
+	// concurrency inside state-changing consensus code: results then depend on the goroutine schedule
+	"(*golang.org/x/sync/errgroup.Group).Go", "(*golang.org/x/sync/errgroup.Group).TryGo", "(*sync.WaitGroup).Go",
 }
 
 type effectFinding struct {
